@@ -257,11 +257,9 @@ type E2ECase struct {
 	Iters   int      `json:"iters"`
 	Err     string   `json:"err"` // "", deadline, itercap, parse, other
 	ErrMsg  string   `json:"errmsg,omitempty"`
-	Iter1   string   `json:"iter1"` // base64: content seen by the second lint (== final when there was none)
-	Final   string   `json:"final"` // base64
-	Pred    string   `json:"pred"`  // "" when the predicate holds, else the reason
-	Relint  []Viol   `json:"relint"`
-	Second  bool     `json:"second_changed"`
+	Iter1   string   `json:"iter1"`  // base64: content seen by the second lint (== final when there was none)
+	Final   string   `json:"final"`  // base64
+	Pred    string   `json:"pred"`   // "" when the predicate holds, else the reason
 	FmtEq   string   `json:"fmt_eq"` // for fmt-only runs: "", "eq", "neq", "fmterr"
 }
 
@@ -518,14 +516,19 @@ func predicate(file, orig, final string, v0 bool, on map[string]bool) string {
 		setAssign(fc)
 	}
 	if fmtOn && !hasRegoV1Import(oc) && hasRegoV1Import(fc) {
-		// formatting a v0 module adds `import rego.v1`
-		var imps []*ast.Import
-		for _, i := range fc.Imports {
-			if !strings.HasSuffix(i.Path.String(), "rego.v1") {
-				imps = append(imps, i)
+		// formatting a v0 module adds `import rego.v1`, which replaces the future.keywords imports
+		strip := func(m *ast.Module) {
+			var imps []*ast.Import
+			for _, i := range m.Imports {
+				ps := i.Path.String()
+				if !strings.HasSuffix(ps, "rego.v1") && !strings.HasPrefix(ps, "future.keywords") {
+					imps = append(imps, i)
+				}
 			}
+			m.Imports = imps
 		}
-		fc.Imports = imps
+		strip(oc)
+		strip(fc)
 	}
 	if !oc.Equal(fc) {
 		return "ast-differs"
@@ -607,7 +610,7 @@ func runE2E(id int, src, content string, v0 bool, rs []string) E2ECase {
 		return c
 	}
 	c.Viol = vs
-	final, snap2, iters, ec, em := runFix(files, long, 40, 120*time.Second)
+	final, snap2, iters, ec, em := runFix(files, long, 12, 120*time.Second)
 	c.Iters, c.Err, c.ErrMsg = iters, ec, em
 	c.Final = b64(final[file])
 	c.Iter1 = b64(snap2[file])
@@ -617,34 +620,37 @@ func runE2E(id int, src, content string, v0 bool, rs []string) E2ECase {
 	}
 	if ec == "" {
 		c.Pred = predicate(file, content, final[file], v0, on)
-		if len(rs) == 1 && rs[0] == "fmt" {
-			opts := format.Opts{RegoVersion: ast.RegoV1}
-			if v0 {
-				opts.RegoVersion = ast.RegoV0CompatV1
-			}
-			opts.ParserOptions = &ast.ParserOptions{RegoVersion: parserOpts(v0).RegoVersion}
-			exp, ferr := format.SourceWithOpts(file, []byte(content), opts)
-			switch {
-			case ferr != nil:
-				c.FmtEq = "fmterr"
-			case string(exp) == final[file]:
-				c.FmtEq = "eq"
-			default:
-				c.FmtEq = "neq"
-			}
-		}
-		// re-lint and second fix (the C12 clauses, observed here too: cheap)
-		rv, err := lintOnce(ctx, final, long)
-		if err != nil {
-			c.Pred = "result-does-not-lint"
-		}
-		c.Relint = rv
-		f2, _, _, ec2, _ := runFix(final, long, 40, 120*time.Second)
-		if ec2 != "" || f2[file] != final[file] {
-			c.Second = true
+		if len(rs) == 1 && rs[0] == "fmt" && len(vs) > 0 {
+			c.FmtEq = fmtExpect(file, content, final[file], v0)
 		}
 	}
 	return c
+}
+
+// fmtExpect: the oracle clause of the property for opa-fmt: the fixed file is what OPA's formatter makes of the
+// original (iterated until it no longer changes: the formatter is not idempotent on raw strings in else heads)
+func fmtExpect(file, content, final string, v0 bool) string {
+	opts := format.Opts{RegoVersion: ast.RegoV1}
+	if v0 {
+		opts.RegoVersion = ast.RegoV0CompatV1
+	}
+	po := ast.ParserOptions{RegoVersion: parserOpts(v0).RegoVersion}
+	opts.ParserOptions = &po
+	cur := content
+	for k := 0; k < 5; k++ {
+		exp, err := format.SourceWithOpts(file, []byte(cur), opts)
+		if err != nil {
+			return "fmterr"
+		}
+		if string(exp) == cur {
+			break
+		}
+		cur = string(exp)
+	}
+	if cur == final {
+		return "eq"
+	}
+	return "neq"
 }
 
 // ---- module generator -----------------------------------------------------------------------
@@ -921,7 +927,7 @@ func main() {
 			}
 		}
 	}
-	n := 330
+	n := 170
 	if tier != "quick" {
 		n = 6000
 	}
